@@ -381,12 +381,13 @@ TYPED_VALUES = {
     "float": [3, "2.5", "10", "0.50", "-0.25", True, "x", "", None, "%(n)s", "%(f)s"],
     "bool": [True, False, 0, 1, 2, "", "false", "x", None],
     "str_to_bool": [True, False, "yes", "No", "TRUE", "false", "maybe", 1, ""],
+    "to_bool": [True, False, 0, 1, 2, "yes", "No", "TRUE", "false", "maybe", "x", "", None],
     "memory_to_bytes": [100, "100", "2Mi", "3Gi", "5Ki", "Mi", "x", "1.5Gi", True, None, "%(n)sMi"],
     "str_to_kubernetes_qos": ["Guaranteed", "burstable", "BESTEFFORT", "x", 1, None],
     "str": ["s", 5, -2, True, "", None, "%(n)s"],
     "dict": [{"a": 1}, {}, "x", 3, None],
 }
-PYTYPE = {"int": int, "optional_int": int, "float": float, "bool": bool, "str_to_bool": bool,
+PYTYPE = {"int": int, "optional_int": int, "float": float, "bool": bool, "str_to_bool": bool, "to_bool": bool,
           "memory_to_bytes": int, "str_to_kubernetes_qos": str, "str": str, "dict": dict}
 
 
